@@ -88,6 +88,17 @@ def txDiscard (guardFirst : Bool) (s : TxSt) : TxSt × TxOutcome :=
     -- staged refs are deleted first; DeleteTransaction then refuses a committed transaction
     if s.committed then ({ s with staged := [] }, .failed) else ({ s with staged := [], exists_ := false }, .ok)
 
+/-- `transaction.Discard` with the (k+1)-th store operation failing: one `Delete` per staged ref
+    (in `order`), then `DeleteTransaction` -/
+def txDiscardFault (guardFirst : Bool) (order : List String) (k : Nat) (s : TxSt) : TxSt × TxOutcome :=
+  if !s.exists_ then (s, .refused) else
+  if guardFirst && s.committed then (s, .refused) else
+  let dels := order.filter (fun b => s.staged.any (fun p => p.1 == b))
+  if k < dels.length then ({ s with staged := s.staged.filter (fun p => !(dels.take k).contains p.1) }, .failed)
+  else if s.committed then ({ s with staged := [] }, .failed)
+  else if k == dels.length then ({ s with staged := [] }, .failed)
+  else ({ s with staged := [], exists_ := false }, .ok)
+
 /-! ### specification -/
 
 /-- the all-branches outcome: every staged branch moved to the staged commit re-parented on the
